@@ -51,9 +51,28 @@ def _scalars_plain(args):
     return [E._conv_scalar(a, float) if not isinstance(a, LVec) else None for a in args]
 
 
-def _np_vec(ls, shape, strided=False):
+def int_lvec(l):
+    """the operand with every stored coordinate replaced by a nearby integer of the same sign (lengths are scaled by 8
+    first so that ratios survive; angles stay inside their ranges): exactly representable in int64 and float64 columns"""
+    out = []
+    for nm, v in zip(R.field_names(l.system), l.f64()[0]):
+        if nm == "phi":
+            k = max(-3, min(3, round(v)))
+        elif nm == "theta":
+            k = max(1, min(3, round(v)))
+        elif nm == "eta":
+            k = max(-5, min(5, round(v)))
+        else:
+            k = round(v * 8) or (1 if v >= 0 else -1)
+        out.append(mpf(k))
+    return LVec(R.from_coords(l.system, out), l.system, l.momentum, coords=tuple(out))
+
+
+def _np_vec(ls, shape, strided=False, dtype=numpy.float64):
     s0 = ls[0]
     rows = [l.f64()[0] for l in ls]
+    if dtype is not numpy.float64:
+        return B.mk_numpy_cls(s0.system, rows, s0.momentum, shape, dtype=dtype)
     if strided:
         doubled = []
         for row in rows:
@@ -83,6 +102,22 @@ def numpy_variants(op, cases, tier):
 
     for name, shape in shapes:
         yield {"name": "numpy" + name, "backend": "numpy", "pairing": "paired", "build": mk(shape), "shape": shape}
+    # integer-typed columns on the receiving array (the object reference gets the same integers as floats)
+    for dt in (numpy.int64, numpy.int32):
+        try:
+            icases = [(int_lvec(c[0]), c[1]) for c in cases]
+        except R.NotRepresentable:
+            break
+        iselfs = [c[0] for c in icases]
+
+        def build_int(dt=dt, iselfs=iselfs):
+            v = _np_vec(iselfs, (n,), dtype=dt)
+            a = list(plain)
+            for j in vecpos:
+                a[j] = _np_vec([c[1][j] for c in cases], (n,))
+            return v, a
+        yield {"name": f"numpy(n,):{numpy.dtype(dt).name}-columns", "backend": "numpy", "pairing": "intcols", "build": build_int,
+               "shape": (n,), "cases": icases}
     yield {"name": "numpy-strided-view", "backend": "numpy", "pairing": "paired", "build": mk((n,), True), "shape": (n,)}
     gi = next((j for j, k in enumerate(op.args) if k in GRID_KINDS), None)
     if gi is not None:
@@ -424,10 +459,14 @@ def run(items, tier, seed, res, prop, judge_values=True, judges=(), backends=("n
                                 exp.append(("ok", E.eval_obj(op, self_l, a2)))
                             except Exception as e:
                                 exp.append(("exc", type(e).__name__, str(e)[:150]))
+                    elif "cases" in var:
+                        exp = _obj_results(op, var["cases"], "paired")
                     else:
                         if pairing not in expected:
                             expected[pairing] = _obj_results(op, cases, pairing)
                         exp = expected[pairing]
+                    vcases = var.get("cases", cases)
+                    vunits = units if "cases" not in var else [E.unit_scale(c[0], c[1], True) for c in vcases]
                     try:
                         v, a = var["build"]()
                     except Exception as e:
@@ -435,7 +474,7 @@ def run(items, tier, seed, res, prop, judge_values=True, judges=(), backends=("n
                         continue
                     ctx = Ctx()
                     ctx.op, ctx.dim, ctx.variant, ctx.backend, ctx.pairing = op, dim, var["name"], var["backend"], pairing
-                    ctx.operands, ctx.struct, ctx.sig, ctx.batch, ctx.expected = [v] + [x for x in a], var.get("struct"), sig, cases, exp
+                    ctx.operands, ctx.struct, ctx.sig, ctx.batch, ctx.expected = [v] + [x for x in a], var.get("struct"), sig, vcases, exp
                     ctx.self_operand = v
                     ctx.extra, ctx.route = var.get("extra", False), var.get("route")
                     for j in judges:
@@ -451,7 +490,7 @@ def run(items, tier, seed, res, prop, judge_values=True, judges=(), backends=("n
                     if not judge_values:
                         res.cell(sig, var["name"])
                         continue
-                    _judge_values(op, dim, res, prop, sig, var, cases, exp, units, gain, out, exc)
+                    _judge_values(op, dim, res, prop, sig, var, vcases, exp, vunits, gain, out, exc)
 
 
 def _judge_values(op, dim, res, prop, sig, var, cases, exp, units, gain, out, exc):
